@@ -181,11 +181,12 @@ def register(R: Registry):
 
     register_nodes(R)
     register_sholl(R)
-    register_padding(R)
+    PAD = register_padding(R)
     register_lmeasure(R)
     H = register_features(R)
+    H.update(register_topology_features(R, H))
     register_frontend(R, H)
-    register_topology_features(R, H)
+    register_extractors(R, H, PAD)
 
 
 def register_nodes(R):
@@ -442,16 +443,33 @@ def register_padding(R):
           notes="n, the length of v, its contents and the padding value symbolic; the input array is frozen (any write = failed frame obligation)")
 
     # ------------------------------------------- PopulationFeatureExtractor._get_impl
-    # the per-tree evaluator is abstract: tree p yields an arbitrary vector FV(p, .) of arbitrary length FLEN(p) >= 0
+    # the per-tree evaluator is abstract: asked for request number f (a feature name together with its keyword arguments),
+    # tree p yields an arbitrary vector FV(p, f, .) of arbitrary length FLEN(p, f) >= 0
     I_, R_ = z3.IntSort(), z3.RealSort()
-    FLEN, FV = z3.Function("feature_len", I_, I_), z3.Function("feature_val", I_, I_, R_)
+    FLEN, FV = z3.Function("feature_len", I_, I_, I_), z3.Function("feature_val", I_, I_, I_, R_)
+
+    def kw_key(x):
+        from fractions import Fraction
+
+        return x if isinstance(x, (int, str, bool, Fraction, type(None))) else ("object", id(x))
+
+    def feature_id(E, feature, kwargs):
+        """number of the request (feature name, keyword arguments): equal requests get the same number"""
+        key = (feature, tuple(sorted((k, kw_key(x)) for k, x in dict(kwargs).items())))
+        ids = E.ghost.setdefault("feature_ids", [])
+        if key not in ids:
+            ids.append(key)
+        return ids.index(key)
 
     def feat_get(E, recv, args, kwargs):
-        E.assumptions.add("abstract per-tree evaluator: Features.get(feature) of tree p is some float32 vector FV(p, .) of some length FLEN(p) >= 0")
-        E.assume(FLEN(recv.z) >= 0)
+        E.assumptions.add("abstract per-tree evaluator: Features.get(feature, **kw) of tree p is some float32 vector FV(p, request, .) of some length FLEN(p, request) >= 0")
+        feature = args[0] if args else kwargs.get("feature")
+        kw = {k: x for k, x in kwargs.items() if k != "feature"}
+        f = feature_id(E, feature, kw)
+        E.assume(FLEN(recv.z, f) >= 0)
         q = z3.Int(fresh_name("q"))
-        E.ghost.setdefault("feature_calls", []).append((recv.z, args[0] if args else None, dict(kwargs)))
-        return SArr(z3.Lambda([q], FV(recv.z, q)), FLEN(recv.z), "real", name="feat", dtype=np.dtype("float32"))
+        E.ghost.setdefault("feature_calls", []).append((recv.z, feature, kw))
+        return SArr(z3.Lambda([q], FV(recv.z, f, q)), FLEN(recv.z, f), "real", name="feat", dtype=np.dtype("float32"))
 
     def pop_setup(P):
         def f(S):
@@ -463,25 +481,36 @@ def register_padding(R):
 
         return f
 
-    def pop_post(E, v, o):
-        res, fs = v["result"], o["__fs__"]
+    def rows_padded(E, res, fs, feature, kwargs):
+        """THE statement for a population: `res` has one row per tree, as long as the longest per-tree vector, row p = the
+        vector of tree p followed by zeros"""
         if not (isinstance(res, S2Arr) and res.transposed and res.k == len(fs)):
             return False
+        f = feature_id(E, feature, kwargs)
         L = res.nz()
-        lens = [FLEN(f.z) for f in fs]
+        lens = [FLEN(x.z, f) for x in fs]
         longest = z3.And(z3.And(*[L >= x for x in lens]), z3.Or(*[L == x for x in lens]))
-        rows = [padded(SArr(res.cols[p], res.n, "real"), L, (lambda i, _f=f: FV(_f.z, i)), FLEN(f.z), 0) for p, f in enumerate(fs)]
+        rows = [padded(SArr(res.cols[p], res.n, "real"), L, (lambda i, _x=x: FV(_x.z, f, i)), FLEN(x.z, f), 0) for p, x in enumerate(fs)]
         return z3.And(longest, *rows)
 
+    def pop_post(E, v, o):
+        return rows_padded(E, v["result"], o["__fs__"], o["feature"], {})
+
+    def calls_are(E, expected):
+        """the ghost log of evaluator calls is exactly `expected` = [(evaluator, feature, kwargs)] in order"""
+        calls = E.ghost.get("feature_calls", [])
+        return len(calls) == len(expected) and all(c[0].eq(x.z) and c[1] == f and {k: kw_key(y) for k, y in c[2].items()} == {k: kw_key(y) for k, y in kw.items()}
+                                                    for c, (x, f, kw) in zip(calls, expected))
+
     def pop_calls(E, v, o):
-        calls, fs = E.ghost.get("feature_calls", []), o["__fs__"]
-        return len(calls) == len(fs) and all(c[0].eq(f.z) and c[1] == o["feature"] and c[2] == {} for c, f in zip(calls, fs))
+        return calls_are(E, [(x, o["feature"], {}) for x in o["__fs__"]])
 
     R.add(f"{FEX}:PopulationFeatureExtractor._get_impl", prop="C10",
           variants={f"population-of-{P}-trees": pop_setup(P) for P in (1, 2, 3)},
           ensures=[("one-zero-padded-row-per-tree-as-long-as-the-longest", pop_post),
                    ("each-tree-evaluated-once-in-order-with-the-requested-feature", pop_calls)],
           notes="number of trees fixed per variant (1-3); the per-tree vectors are abstract (any length, any contents)")
+    return dict(feat_get=feat_get, feature_id=feature_id, FLEN=FLEN, FV=FV, rows_padded=rows_padded, calls_are=calls_are)
 
 
 # ===========================================================================
@@ -1009,6 +1038,9 @@ INLINE = ["swc_utils/base.py:traverse", "swc_utils/base.py:_traverse_dfs", ":Tre
           ":Tree.get_tips", ":Tree.get_furcations", ":Tree.get_branches", ":Tree.Node.branch", ":Node.is_furcation", ":Node.is_tip", ":Node.distance"]
 
 
+POP_INLINE = [f":{c}.{m}" for c in ("Population", "Populations") for m in ("__len__", "__iter__", "__getitem__")]
+
+
 def pname(pids):
     return "pid=" + ",".join(str(p) for p in pids)
 
@@ -1400,3 +1432,196 @@ def register_topology_features(R, H):
                       "ValueError": ("an-arm-or-the-parent-segment-of-zero-length", lambda E, v, o, _r=remote: arms(v, _r)[2] is not None and arms(v, _r)[0].pids[arms(v, _r)[1]] != -1 and zero_arm(E, v, _r, True))},
               ensures=[("smaller-of-the-two-angles-in-degrees-between-the-parent-segment-and-each-arm", tilt_post(remote))],
               notes="as bif_ampl_*; the parent segment runs from the bifurcation to its parent node")
+
+    return dict(Geo=Geo, multiset=multiset, bo_post=bo_post, srd_post=srd_post)
+
+
+# ===========================================================================
+# the extractor front end: extract_feature / FeatureExtractor.get and its three implementations
+def register_extractors(R, H, PAD):
+    from pyvc.values import Obj, Opaque, PDict, PList
+    from swcgeom.analysis.feature_extractor import Features, PopulationFeatureExtractor, PopulationsFeatureExtractor, TreeFeatureExtractor
+
+    feat_get, feature_id, FLEN, FV, rows_padded, calls_are = (PAD[k] for k in ("feat_get", "feature_id", "FLEN", "FV", "rows_padded", "calls_are"))
+
+    def abstract_features(S, name):
+        return S.opaque({"get": feat_get}, name=name)
+
+    def tree_fe(S):
+        x = abstract_features(S, "features")
+        return S.obj(TreeFeatureExtractor, _tree=None, _features=x), [x]
+
+    def pop_fe(P):
+        def f(S):
+            xs = [abstract_features(S, f"features{p}") for p in range(P)]
+            return S.obj(PopulationFeatureExtractor, _population=None, _features=PList(xs)), xs
+
+        return f
+
+    def vector_is(E, res, x, feature, kwargs):
+        """THE statement for one tree: `res` is the evaluator's vector for that request"""
+        if not isinstance(res, SArr):
+            return False
+        f = feature_id(E, feature, kwargs)
+        i = z3.Int(fresh_name("i"))
+        return z3.And(res.nz() == FLEN(x.z, f), z3.ForAll([i], z3.Implies(z3.And(i >= 0, i < res.nz()), to_z3(res.get(i), "real") == FV(x.z, f, i))))
+
+    def value_is(E, o, res, feature, kwargs):
+        xs = o["__fs__"]
+        if o["self"].cls is TreeFeatureExtractor:
+            return vector_is(E, res, xs[0], feature, kwargs)
+        return rows_padded(E, res, xs, feature, kwargs)
+
+    def requests(o):
+        """the requests a call of get() stands for: [(key or None, feature, kwargs)]"""
+        f, kw = o["feature"], dict(o["kwargs"].items) if isinstance(o.get("kwargs"), PDict) else {}
+        norm = lambda x, extra: (x[0], {**dict(x[1].items), **extra}) if isinstance(x, tuple) else (x, dict(extra))
+        if isinstance(f, PDict):
+            return "dict", [(k, k, dict(kv.items)) for k, kv in f.items.items()]
+        if isinstance(f, PList):
+            return "list", [(None,) + norm(x, {}) for x in f.items]
+        return "single", [(None,) + norm(f, kw)]
+
+    def get_post(E, v, o):
+        form, reqs = requests(o)
+        res = v["result"]
+        if form == "single":
+            return value_is(E, o, res, reqs[0][1], reqs[0][2])
+        if form == "list":
+            if not (isinstance(res, PList) and res.items is not None and len(res.items) == len(reqs) and res.uid not in E.entry_uids):
+                return False
+            return z3.And(*[value_is(E, o, x, f, kw) for x, (_, f, kw) in zip(res.items, reqs)])
+        if not (isinstance(res, PDict) and res.items is not None and list(res.items) == [k for k, _, _ in reqs] and res.uid not in E.entry_uids):
+            return False
+        return z3.And(*[value_is(E, o, res.items[k], f, kw) for k, f, kw in reqs])
+
+    def get_calls(E, v, o):
+        _, reqs = requests(o)
+        return calls_are(E, [(x, f, kw) for _, f, kw in reqs for x in o["__fs__"]])
+
+    def mk(fe_setup, feature, kwargs=None):
+        def f(S):
+            fe, xs = fe_setup(S)
+            d = dict(self=fe, feature=feature(S) if callable(feature) else feature, __fs__=xs)
+            if kwargs is not None:
+                d["kwargs"] = PDict(kwargs(S))
+            return d
+
+        return f
+
+    variants = {}
+    for nm, fs in (("tree", tree_fe), ("population-of-2-trees", pop_fe(2))):
+        variants[f"{nm},one-name"] = mk(fs, "some_feature")
+        variants[f"{nm},one-name-with-keyword-arguments"] = mk(fs, "some_feature", lambda S: dict(alpha=S.real("alpha"), beta=3))
+        variants[f"{nm},name-and-arguments-pair-plus-keyword-arguments"] = mk(fs, lambda S: ("some_feature", PDict(dict(alpha=S.real("alpha"), beta=1))), lambda S: dict(beta=2))
+        variants[f"{nm},list-of-names-and-pairs"] = mk(fs, lambda S: PList(["feature_a", ("feature_b", PDict(dict(k=S.real("k")))), "feature_a"]))
+        variants[f"{nm},dict-name-to-arguments"] = mk(fs, lambda S: PDict(dict(feature_a=PDict({}), feature_b=PDict(dict(k=S.real("k"))))))
+        variants[f"{nm},empty-list"] = mk(fs, lambda S: PList([]))
+    variants["population-of-1-tree,one-name"] = mk(pop_fe(1), "some_feature")
+    variants["population-of-3-trees,list-of-names"] = mk(pop_fe(3), lambda S: PList(["feature_a", "feature_b"]))
+    variants["tree,deprecated-name"] = mk(tree_fe, "bifurcation_count")
+    variants["population-of-2-trees,deprecated-name"] = mk(pop_fe(2), "bifurcation_radial_distance")
+
+    R.add(f"{FEX}:FeatureExtractor.get", prop="C10", variants=variants,
+          raises={"DeprecationWarning": ("a-deprecated-bifurcation-feature-was-asked-for", lambda E, v, o: isinstance(v["feature"], str) and v["feature"].startswith("bifurcation_"))},
+          ensures=[("per-request-the-tree-evaluators-vector-or-one-zero-padded-row-per-tree-of-the-population-lists-and-dicts-keep-order-and-keys", get_post),
+                   ("every-evaluator-asked-once-per-request-in-order-with-the-merged-keyword-arguments", get_calls)],
+          notes="TreeFeatureExtractor and PopulationFeatureExtractor (1-3 trees) over ABSTRACT per-tree evaluators (any vector per (tree, request)); "
+                "single name, (name, kwargs) pair merged with keyword arguments (keyword arguments win), list form, dict form, deprecated names")
+
+    # ------------------------------------------------ _get_feat_and_kwargs
+    def gfk_post(E, v, o):
+        f, kw, res = o["feature"], dict(o["kwargs"].items), v["result"]
+        if not (isinstance(res, tuple) and len(res) == 2 and isinstance(res[1], PDict) and res[1].items is not None):
+            return False
+        if isinstance(f, tuple):
+            want = {**dict(f[1].items), **kw}
+            fresh_ok = res[1].uid != f[1].uid and dict(v["feature"][1].items) == dict(f[1].items)  # the caller's dict is neither returned nor changed
+            name = f[0]
+        else:
+            want, fresh_ok, name = kw, True, f
+        same = list(res[1].items) == list(want) and all(res[1].items[k] is want[k] or res[1].items[k] == want[k] for k in want)
+        return res[0] == name and same and fresh_ok
+
+    R.add(f"{FEX}:_get_feat_and_kwargs", prop="C10",
+          variants={"name": lambda S: dict(feature="length", kwargs=PDict({})),
+                    "name-with-keyword-arguments": lambda S: dict(feature="sholl", kwargs=PDict(dict(steps=S.int("steps")))),
+                    "pair": lambda S: dict(feature=("sholl", PDict(dict(steps=S.int("steps")))), kwargs=PDict({})),
+                    "pair-with-overriding-keyword-arguments": lambda S: dict(feature=("volume", PDict(dict(accuracy=1, other=S.real("x")))), kwargs=PDict(dict(accuracy=2)))},
+          ensures=[("name-and-the-arguments-of-the-pair-updated-by-the-keyword-arguments-in-a-dict-of-its-own", gfk_post)])
+
+    # ------------------------------------------------ extract_feature and the three constructors
+    from swcgeom.core.population import Population, Populations
+    from swcgeom.core.tree import Tree as Tree_
+
+    class _same_but_fresh:
+        """view of the object under construction (allocated by the caller of __init__) that `built` accepts as new"""
+
+        def __init__(self, obj, E):
+            self.__dict__.update(cls=obj.cls, fields=obj.fields, uid=-1)
+
+
+    def population(S, k, tag=""):
+        trees = [sym_tree(S, f"t{tag}{j}") for j in range(k)]
+        return S.obj(Population, trees=PList(trees), root=""), trees
+
+    def populations(S, sizes):
+        ps = [population(S, k, tag=f"{a}_") for a, k in enumerate(sizes)]
+        return S.obj(Populations, len=min(sizes) if sizes else 0, populations=PList([p for p, _ in ps]), labels=PList(["" for _ in ps])), [ts for _, ts in ps]
+
+    def is_features_of(x, t, E):
+        """a NEW Features object over exactly tree t with every cache empty"""
+        return isinstance(x, Obj) and x.cls is Features and x.fields.get("tree") is t and set(x.fields) == {"tree"} and x.uid not in E.entry_uids
+
+    def built(E, res, obj, trees):
+        """what a constructor / extract_feature must hand back for `obj` (trees: the tree, the list of trees of a population,
+        the list of lists of a Populations -- the live input objects)"""
+        if not ((isinstance(res, Obj) or isinstance(res, _same_but_fresh)) and res.uid not in E.entry_uids):
+            return False
+        if obj.cls is Population:
+            fs = res.fields.get("_features")
+            return (res.cls is PopulationFeatureExtractor and set(res.fields) == {"_population", "_features"} and res.fields["_population"] is obj
+                    and isinstance(fs, PList) and fs.items is not None and len(fs.items) == len(trees) and all(is_features_of(x, t, E) for x, t in zip(fs.items, trees)))
+        if obj.cls is Populations:
+            fs = res.fields.get("_features")
+            if not (res.cls is PopulationsFeatureExtractor and set(res.fields) == {"_populations", "_features"} and res.fields["_populations"] is obj
+                    and isinstance(fs, PList) and fs.items is not None and len(fs.items) == len(trees)):
+                return False
+            return all(isinstance(row, PList) and row.items is not None and len(row.items) == len(ts) and all(is_features_of(x, t, E) for x, t in zip(row.items, ts))
+                       for row, ts in zip(fs.items, trees))
+        return (res.cls is TreeFeatureExtractor and set(res.fields) == {"_tree", "_features"} and res.fields["_tree"] is obj and is_features_of(res.fields["_features"], obj, E))
+
+    def ef_setup(kind):
+        def f(S):
+            if kind == "tree":
+                t = sym_tree(S, "t")
+                return dict(obj=t, __trees__=t)
+            if kind.startswith("population-of-"):
+                p, ts = population(S, int(kind.split("-")[2]))
+                return dict(obj=p, __trees__=ts)
+            if kind.startswith("populations-of-"):
+                p, tss = populations(S, [int(x) for x in kind.split("-")[2].split("+")])
+                return dict(obj=p, __trees__=tss)
+            return dict(obj={"an-int": 3, "None": None, "a-file-name": "neuron.swc", "a-list-of-trees": PList([sym_tree(S, "t")])}[kind], __trees__=None)
+
+        return f
+
+    KINDS = ["tree", "population-of-0-trees", "population-of-1-trees", "population-of-3-trees", "populations-of-2+1-trees", "populations-of-1-trees", "populations-of-0+2-trees",
+             "an-int", "None", "a-file-name", "a-list-of-trees"]
+    R.add(f"{FEX}:extract_feature", prop="C10", variants={k: ef_setup(k) for k in KINDS}, options=dict(inline_calls=INLINE + POP_INLINE),
+          raises={"TypeError": ("neither-a-tree-nor-a-population-nor-populations", lambda E, v, o: not (isinstance(v["obj"], Obj) and v["obj"].cls in (Tree_, Population, Populations)))},
+          ensures=[("the-extractor-of-the-argument's-kind-with-one-fresh-evaluator-per-tree-in-order", lambda E, v, o: built(E, v["result"], v["obj"], v["__trees__"])),
+                   ("it-is-a-tree-a-population-or-populations", lambda E, v, o: isinstance(o["obj"], Obj) and o["obj"].cls in (Tree_, Population, Populations))],
+          notes="trees of symbolic size; populations of 0-3 trees, populations of 1-2 populations; other argument kinds: TypeError")
+    for cls, kinds, param in ((TreeFeatureExtractor, ["tree"], "tree"), (PopulationFeatureExtractor, ["population-of-0-trees", "population-of-2-trees"], "population"),
+                              (PopulationsFeatureExtractor, ["populations-of-2+1-trees", "populations-of-0-trees"], "populations")):
+        def init_setup(kind, _cls=cls, _param=param):
+            def f(S):
+                d = ef_setup(kind)(S)
+                return {"self": S.obj(_cls), _param: d["obj"], "__trees__": d["__trees__"]}
+
+            return f
+
+        R.add(f"{FEX}:{cls.__name__}.__init__", prop="C10", variants={k: init_setup(k) for k in kinds}, options=dict(inline_calls=INLINE + POP_INLINE),
+              ensures=[("keeps-the-argument-and-one-fresh-evaluator-per-tree-in-order",
+                        lambda E, v, o, _param=param: v["result"] is None and built(E, _same_but_fresh(v["self"], E), v[_param], v["__trees__"]))])
